@@ -80,18 +80,17 @@ theorem readCfvo_written (x : Cfvo) : readCfvo (render cfvoNames [x.type.map Cfv
 /-! ### `<color>` -/
 
 /-- what the public setters leave in a colour (`set_argb`, `set_indexed`, `set_theme_index` clear one another),
-    within `u32`, and with something to write -/
+    within `u32`; a colour without any attribute (`Color::default()`) included -/
 structure ColorWF (c : Color) : Prop where
   one : (c.theme = none ∧ c.indexed = none) ∨ (c.theme = none ∧ c.argb = none) ∨ (c.indexed = none ∧ c.argb = none)
   themeB : ∀ n, c.theme = some n → n < 4294967296
   indexedB : ∀ n, c.indexed = some n → n < 4294967296
-  written : c.theme.isSome ∨ c.indexed.isSome ∨ c.argb.isSome ∨ c.tint.isSome
 
 theorem colorNames_nodup : colorNames.Nodup := by decide
 
 theorem readColor_written (c : Color) (h : ColorWF c) : readColor (render colorNames (colorValues c)) = .ok c := by
   obtain ⟨th, ix, ar, ti⟩ := c
-  obtain ⟨h1, hb1, hb2, _⟩ := h
+  obtain ⟨h1, hb1, hb2⟩ := h
   simp only at h1 hb1 hb2
   have hl : (colorValues ⟨th, ix, ar, ti⟩).length = 4 := by
     unfold colorValues; cases th <;> cases ix <;> rfl
@@ -116,38 +115,24 @@ theorem readColor_written (c : Color) (h : ColorWF c) : readColor (render colorN
       simp [colorValues, readNum, parseU32p_decDigits i (hb2 i rfl)]
     | none => simp [colorValues, readNum]
 
-theorem render_color_ne_nil (c : Color) (h : ColorWF c) : render colorNames (colorValues c) ≠ [] := by
-  obtain ⟨th, ix, ar, ti⟩ := c
-  obtain ⟨_, _, _, hw⟩ := h
-  simp only at hw
-  cases th <;> cases ix <;> cases ar <;> cases ti <;> simp [colorValues, colorNames, render] at hw ⊢
-
-theorem writeColor_wf (c : Color) (h : ColorWF c) :
-    writeColor c = [.elem "color".toList (render colorNames (colorValues c)) []] := by
-  unfold writeColor
-  have := render_color_ne_nil c h
-  split
-  · rename_i heq; exact absurd heq this
-  · rfl
-
 /-! ### scale-like children -/
 
 structure ScaleWF (s : Scale) : Prop where
   colors : ∀ c ∈ s.colors, ColorWF c
 
 theorem readScaleKids_colors : ∀ (cs : List Color) (s : Scale), (∀ c ∈ cs, ColorWF c) →
-    readScaleKids (cs.flatMap writeColor) s = .ok { s with colors := s.colors ++ cs }
+    readScaleKids (cs.map writeColor) s = .ok { s with colors := s.colors ++ cs }
   | [], s, _ => by simp [readScaleKids]
   | c :: cs, s, h => by
     have hc := h c (by simp)
     have hcol : ("color".toList : Text) ≠ "cfvo".toList := by decide
-    simp only [List.flatMap_cons, writeColor_wf c hc, List.singleton_append, readScaleKids, hcol, if_false, if_true,
+    simp only [List.map_cons, writeColor, readScaleKids, hcol, if_false, if_true,
       readColor_written c hc]
     rw [readScaleKids_colors cs _ (fun x hx => h x (List.mem_cons_of_mem _ hx))]
     simp
 
 theorem readScaleKids_written : ∀ (vs : List Cfvo) (cs : List Color) (s : Scale), (∀ c ∈ cs, ColorWF c) →
-    readScaleKids (vs.map writeCfvo ++ cs.flatMap writeColor) s = .ok ⟨s.cfvos ++ vs, s.colors ++ cs⟩
+    readScaleKids (vs.map writeCfvo ++ cs.map writeColor) s = .ok ⟨s.cfvos ++ vs, s.colors ++ cs⟩
   | [], cs, s, h => by simpa using readScaleKids_colors cs s h
   | v :: vs, cs, s, h => by
     simp only [List.map_cons, List.cons_append, writeCfvo, readScaleKids, if_true, readCfvo_written]
@@ -155,8 +140,8 @@ theorem readScaleKids_written : ∀ (vs : List Cfvo) (cs : List Color) (s : Scal
     simp
 
 theorem readScale_written (name : Text) (s : Scale) (h : ScaleWF s) :
-    ∃ as, writeScale name s = .elem name as (s.cfvos.map writeCfvo ++ s.colors.flatMap writeColor) ∧
-      readScaleKids (s.cfvos.map writeCfvo ++ s.colors.flatMap writeColor) {} = .ok s := by
+    ∃ as, writeScale name s = .elem name as (s.cfvos.map writeCfvo ++ s.colors.map writeColor) ∧
+      readScaleKids (s.cfvos.map writeCfvo ++ s.colors.map writeColor) {} = .ok s := by
   refine ⟨[], rfl, ?_⟩
   rw [readScaleKids_written s.cfvos s.colors {} h.colors]
   simp
@@ -296,7 +281,7 @@ structure RuleWF (r : Rule) : Prop where
   formula : ∀ f, r.formula = some f → FmlWF f
 
 theorem readScale_kids (s : Scale) (hs : ScaleWF s) :
-    readScaleKids (s.cfvos.map writeCfvo ++ s.colors.flatMap writeColor) {} = .ok s :=
+    readScaleKids (s.cfvos.map writeCfvo ++ s.colors.map writeColor) {} = .ok s :=
   by
   rw [readScaleKids_written s.cfvos s.colors {} hs.colors]
   simp
@@ -411,38 +396,68 @@ theorem readRules_written : ∀ (rs : List Rule) (t t' : List Sty), (∀ r ∈ r
     rw [hw] at h1 ⊢
     simp only [readRules, if_true, h1, h2]
 
+/-- a block the codecs carry: ranges of the four shapes within the grid (none included), rules well formed (none
+    included) -/
+structure BlockOK (b : Block) : Prop where
+  ranges : RangesOK b.sqref
+  rules : ∀ r ∈ b.rules, RuleWF r
+
+/-- a block that is written: `BlockOK` with at least one rule -/
 structure BlockWF (b : Block) : Prop where
   ranges : RangesOK b.sqref
-  nonempty : b.sqref ≠ []
   hasRule : b.rules ≠ []
   rules : ∀ r ∈ b.rules, RuleWF r
 
+theorem BlockWF.ok {b : Block} (h : BlockWF b) : BlockOK b := ⟨h.ranges, h.rules⟩
+
 theorem writeBlock_ext (t : List Sty) (b : Block) : Ext t (writeBlock t b).1 := writeRules_ext b.rules t
 
-theorem readBlock_written (t t' : List Sty) (b : Block) (h : BlockWF b) (hx : Ext (writeBlock t b).1 t')
-    (hT : t'.length ≤ 18446744073709551616) : readBlock t' (writeBlock t b).2 = .ok b := by
+/-- the element of a block reads back as the block (with or without ranges, with or without rules) -/
+theorem readBlock_written (t t' : List Sty) (b : Block) (h : BlockOK b) (hx : Ext (writeBlock t b).1 t')
+    (hT : t'.length ≤ 18446744073709551616) : readBlock t' (blockElem t b) = .ok b := by
   have hs : readSqref (some (sqrefText b.sqref)) = .ok b.sqref := by
-    simpa [readSqref] using setSqref_text b.sqref h.ranges h.nonempty
+    simpa [readSqref] using setSqref_text b.sqref h.ranges
   have hr := readRules_written b.rules t t' h.rules hx hT
-  simp only [writeBlock, readBlock, getAttr, if_true, hs, hr]
+  simp only [blockElem, readBlock, getAttr, if_true, hs, hr]
 
 theorem writeBlocks_ext : ∀ (bs : List Block) (t : List Sty), Ext t (writeBlocks t bs).1
   | [], t => Ext.refl t
   | b :: bs, t => (writeBlock_ext t b).trans (writeBlocks_ext bs _)
 
-theorem readBlocks_written : ∀ (bs : List Block) (t t' : List Sty), (∀ b ∈ bs, BlockWF b) →
-    Ext (writeBlocks t bs).1 t' → t'.length ≤ 18446744073709551616 → readBlocks t' (writeBlocks t bs).2 = .ok bs
+/-- what is read back from the written blocks: the blocks that have a rule, in order -/
+theorem readBlocks_written_norm : ∀ (bs : List Block) (t t' : List Sty), (∀ b ∈ bs, BlockOK b) →
+    Ext (writeBlocks t bs).1 t' → t'.length ≤ 18446744073709551616 →
+    readBlocks t' (writeBlocks t bs).2 = .ok (writtenBlocks bs)
   | [], _, _, _, _, _ => rfl
   | b :: bs, t, t', h, hx, hT => by
     have hx1 : Ext (writeBlock t b).1 t' := (writeBlocks_ext bs _).trans hx
-    have h1 := readBlock_written t t' b (h b (by simp)) hx1 hT
-    have h2 := readBlocks_written bs (writeBlock t b).1 t' (fun x hx => h x (List.mem_cons_of_mem _ hx)) hx hT
-    obtain ⟨r0, rs0, hrs⟩ := List.exists_cons_of_ne_nil (h b (by simp)).hasRule
-    have hw : ∃ k ks, (writeBlock t b).2 = .elem "conditionalFormatting".toList [⟨"sqref".toList, sqrefText b.sqref⟩] (k :: ks) := by
-      simp only [writeBlock, hrs, writeRules]
-      exact ⟨_, _, rfl⟩
-    obtain ⟨k, ks, hw⟩ := hw
-    rw [hw] at h1
-    simp only [writeBlocks, hw, readBlocks, h1, h2]
+    have h2 := readBlocks_written_norm bs (writeBlock t b).1 t' (fun x hx => h x (List.mem_cons_of_mem _ hx)) hx hT
+    cases hrs : b.rules with
+    | nil =>
+      simp only [writeBlocks, writeBlock, hrs, List.isEmpty_nil, if_true, List.nil_append, writtenBlocks, List.filter_cons,
+        Bool.not_true]
+      simpa [writeBlock, hrs, writtenBlocks] using h2
+    | cons r0 rs0 =>
+      have h1 := readBlock_written t t' b (h b (by simp)) hx1 hT
+      have hw : ∃ k ks, blockElem t b = .elem "conditionalFormatting".toList [⟨"sqref".toList, sqrefText b.sqref⟩] (k :: ks) := by
+        simp only [blockElem, hrs, writeRules]
+        exact ⟨_, _, rfl⟩
+      obtain ⟨k, ks, hw⟩ := hw
+      have he : (writeBlock t b).2 = [blockElem t b] := by simp [writeBlock, hrs]
+      rw [hw] at h1 he
+      simp only [writeBlocks, he, List.singleton_append, readBlocks, h1, h2, writtenBlocks, List.filter_cons, hrs,
+        List.isEmpty_cons, Bool.not_false, if_true]
+
+theorem writtenBlocks_self (bs : List Block) (h : ∀ b ∈ bs, b.rules ≠ []) : writtenBlocks bs = bs := by
+  apply List.filter_eq_self.2
+  intro b hb
+  cases hr : b.rules with
+  | nil => exact absurd hr (h b hb)
+  | cons r rs => rfl
+
+theorem readBlocks_written (bs : List Block) (t t' : List Sty) (h : ∀ b ∈ bs, BlockWF b)
+    (hx : Ext (writeBlocks t bs).1 t') (hT : t'.length ≤ 18446744073709551616) :
+    readBlocks t' (writeBlocks t bs).2 = .ok bs := by
+  rw [readBlocks_written_norm bs t t' (fun b hb => (h b hb).ok) hx hT, writtenBlocks_self bs (fun b hb => (h b hb).hasRule)]
 
 end Umya.AnnotCf
